@@ -134,6 +134,7 @@ func runCheck(id, tier, only string) (exit int) {
 		if tier == "thorough" {
 			c.thorough(pc)
 			c.selfTest(id)
+			c.crossReference()
 		}
 	}()
 
@@ -184,6 +185,12 @@ func runCheck(id, tier, only string) (exit int) {
 		id, tier, c.npkgs, c.nfuncs, len(rep.Obl), rep.count(stOK), rep.count(stReviewed), rep.count(stKnown), nviol, wall)
 	if nviol > 0 {
 		return 1
+	}
+	if len(selfTestFailures) > 0 {
+		for _, l := range selfTestFailures {
+			fmt.Println(l)
+		}
+		return 2
 	}
 	return 0
 }
